@@ -10,6 +10,10 @@ LAYOUTS = ['full', 'gap', 'step', 'rows']
 
 
 def offsets(name, r, c):
+    if name == '3var':          # one variable of a [r, 3, c] block: a 1-wide axis in the middle of the view's shape
+        return 3 * r * c, [i * 3 * c + c + j for i in range(r) for j in range(c)]
+    if name.startswith('3'):    # the 2-D layouts as [r, 1, c] views
+        name = name[1:]
     if name == 'full':
         return r * c, [i * c + j for i in range(r) for j in range(c)]
     if name == 'gap':
@@ -36,12 +40,18 @@ def big_arrays(c, only=None):
                 ('ADDTO', 2, 'full', 'full', 1, 100003), ('APPLYFUNC', 3, 'full', 'full', 13, 7699), ('SCALE', 2, 'gap', 'full', 5, 6553),
                 ('UNROLL', 3, 'full', 'step', 25, 2633), ('RESHAPE', 7, 'full', 'gap', 5, 6553), ('MAX', 3, 'full', 'rows', 11, 9091),
                 ('MIN', 2, 'full', 'full', 1, 100003)]
+    # three-dimensional views [r, 1, c]: one variable of every cell of a [cells, variables, timesteps] block (what a model run
+    # hands to the bulk operations), against the other layouts with the unit axis in place
+    designed += [('COPYFROM', 3, '3var', '3full', 37, 353), ('COPYFROM', 2, '3full', '3var', 101, 131), ('APPLYSLICE', 3, '3var', '3gap', 11, 1201),
+                 ('ADDTO', 3, '3var', '3var', 37, 353), ('SCALE', 2, '3var', '3step', 5, 2633), ('UNROLL', 3, '3full', '3var', 37, 353),
+                 ('RESHAPE', 2, '3full', '3var', 101, 131), ('MAX', 3, '3full', '3var', 11, 1201), ('APPLYFUNC', 3, '3rows', '3var', 37, 353)]
     for (op, procs, dl, sl, r, cc) in designed:
         for be in ('g', 'c'):
             cases.append((procs, be, be, dl, sl, op, r, cc, rng.randint(0, 9999)))
     for k in range(4 if quick else 120):
         r, cc = rng.choice([1, 3, 5, 7, 9, 11, 13]), rng.randint(2500, 40000)
-        cases.append((rng.choice([1, 2, 3, 7]), rng.choice('gc'), rng.choice('gc'), rng.choice(LAYOUTS), rng.choice(LAYOUTS),
+        lay = LAYOUTS if rng.random() < 0.6 else ['3full', '3gap', '3step', '3rows', '3var', '3var']
+        cases.append((rng.choice([1, 2, 3, 7]), rng.choice('gc'), rng.choice('gc'), rng.choice(lay), rng.choice(lay),
                       rng.choice(ops), r, cc, rng.randint(0, 9999)))
     if only:
         cases = [cs for cs in cases if cs[5] in only]
